@@ -30,9 +30,6 @@ func (obj Symbol) Readably(b []byte, p *Printer) []byte {
 	if len(obj) == 0 {
 		return append(b, '|', '|')
 	}
-	if obj[0] == ':' {
-		return append(b, p.caseName(string(obj))...)
-	}
 	if obj.needPipes() {
 		b = append(b, '|')
 		for _, c := range []byte(p.caseName(string(obj))) {
